@@ -984,6 +984,59 @@ var scenarioTable = map[string]func(s *sc){
 		s.inject(2, s.adv.mkC(ref(protocol.LEAN_HELIX_COMMIT, 1, 1, b), s.cl.ids[1], "", ""), "c_byz_or_outsider")
 		s.flush(any)
 	},
+	// C10 (environment fault, nobody Byzantine acts: n3 is silent): view 0 is lost; n0 and n2 time out and vote; n1 is elected (its own vote
+	// makes the quorum) - the transport reports a FAILURE for its NEW_VIEW broadcast.  Then one more copy of a vote for view 1 arrives
+	// (n0's vote, duplicated by the network) and n2's vote once more: n1 must not run the election of view 1 a second time - a
+	// second NEW_VIEW would carry another fresh block (two proposals signed for one view).
+	"new_view_broadcast_reports_a_failure_then_votes_of_that_view_arrive_again": func(s *sc) {
+		s.startNodes()
+		s.dropAll(any)
+		for _, i := range []int{0, 1, 2} {
+			s.timeout(i)
+		}
+		var votes []pending
+		for _, p := range s.pool {
+			if kindOf(p.raw) == "VC" && p.to == 1 {
+				votes = append(votes, p)
+			}
+		}
+		s.node(1).failNext = "NV"
+		s.flush(func(p pending, k string) bool { return k == "VC" && p.to == 1 })
+		for _, p := range votes { // the same votes once more
+			s.pool = append(s.pool, p)
+		}
+		s.flush(func(p pending, k string) bool { return k == "VC" && p.to == 1 })
+		s.flush(any)
+	},
+	// C07 / C04 (the block travels outside every signature): the honest n0 proposes A in view 0 and everybody accepts it; the PREPAREs are
+	// lost; everybody times out.  The Byzantine n1 leads view 1: its NEW_VIEW carries the genuine lock-free votes and a PREPREPARE signed
+	// for hash(A) again - but ANOTHER block X is attached.  A member that holds the proposal (0, A) must still have the attached block
+	// validated by its consumer (which rejects a block that does not match the hash): no PREPARE for it.
+	"new_view_resigns_the_hash_of_an_accepted_proposal_but_attaches_another_block": func(s *sc) {
+		s.startNodes()
+		s.flush(kinds("PP"))
+		var a *vBlock
+		for _, pp := range s.adv.ppSeen {
+			if vb, ok := pp.Block().(*vBlock); ok {
+				a = vb
+			}
+		}
+		s.dropAll(any)
+		for _, i := range []int{0, 2, 3} {
+			s.timeout(i)
+		}
+		if a == nil {
+			return
+		}
+		votes := append(s.genuineVotesFor(1, 1), s.byzVote(1, 1, 1))
+		s.dropAll(any)
+		x := s.adv.newBody(s.run, 1, false)
+		d := nvD{inst: clusterInstance, h: 1, v: 1, sender: s.cl.ids[1], votes: votes, pp: ref(protocol.LEAN_HELIX_PREPREPARE, 1, 1, a), ppBy: s.cl.ids[1]}
+		for _, i := range []int{0, 2, 3} {
+			s.inject(i, s.adv.mkNV(d, x), "nv_block_mismatch")
+		}
+		s.flush(any)
+	},
 	// C03/C01: nobody is prepared in view 0 (the PREPAREs for B are lost; the adversary has seen them), but the next leader n1
 	// holds the proposal B.  Everybody times out.  The Byzantine member n3 votes first, with a GENUINE prepared proof for B but
 	// ANOTHER block X attached.  n1 must not count that vote (the block it would re-propose is not the certified one).  Then
@@ -1181,7 +1234,7 @@ func scenarioByz(name string) []int {
 		return nil
 	case "lagging_member_with_foreign_instance_prepare_in_its_future_cache", "byzantine_commit_for_another_hash_before_two_genuine_commits",
 		"byzantine_commit_with_share_copied_from_a_genuine_commit", "vote_with_genuine_proof_and_another_block_to_a_leader_holding_the_proposal",
-		"commit_broadcast_fails_when_becoming_prepared_then_timeout":
+		"commit_broadcast_fails_when_becoming_prepared_then_timeout", "new_view_broadcast_reports_a_failure_then_votes_of_that_view_arrive_again":
 		return []int{3}
 	case "member_without_weight_leads_its_view":
 		return []int{4}
